@@ -665,6 +665,23 @@ func plainValue(u *Universe, res ssa.Value, isSrc func(ssa.Value) bool, bind map
 		return v
 	}
 	switch x := res.(type) {
+	case *ssa.Phi:
+		// a named result: nil on the paths that report absence (ST5), the encoding on the others
+		why, some := "", false
+		for _, e := range x.Edges {
+			if isNilConst(e) {
+				continue
+			}
+			ok2, w := plainValue(u, e, isSrc, bind, depth+1)
+			if !ok2 {
+				return false, w
+			}
+			why, some = w, true
+		}
+		if !some {
+			return false, "never returns an encoding"
+		}
+		return true, why
 	case *ssa.Convert:
 		// []byte(string)
 		if b, ok := x.X.Type().Underlying().(*types.Basic); ok && b.Info()&types.IsString != 0 {
@@ -880,52 +897,101 @@ func checkST6(c *Ctx, st *statsType, key string) {
 		p := u.Pos(s.Pos())
 		base := s.Addr.(*ssa.FieldAddr).X
 		bo, ok := s.Val.(*ssa.BinOp)
-		if !ok || bo.Op != token.ADD || !loadOf(bo.X, fld, base) || !constIs(bo.Y, 1) {
+		if !ok || bo.Op != token.ADD || !loadOf(bo.X, fld, base) {
 			r.bad("ST6", k, p, "null counter is not incremented by exactly one")
 			continue
 		}
+		// where the count is taken: at the store itself (+= 1), or in a local counter that starts at 0, is advanced by
+		// one at some places of a loop and is added to the field once, after the loop
+		incBlocks := []*ssa.BasicBlock{s.Block()}
+		if !constIs(bo.Y, 1) {
+			incBlocks = nil
+			okLocal := !inCycleBlock(s.Block())
+			seenPhi := map[*ssa.Phi]bool{}
+			var walk func(v ssa.Value, d int)
+			walk = func(v ssa.Value, d int) {
+				v = stripConvert(v)
+				if d > 6 {
+					okLocal = false
+					return
+				}
+				switch y := v.(type) {
+				case *ssa.Const:
+					if !constIs(y, 0) {
+						okLocal = false
+					}
+				case *ssa.Phi:
+					if seenPhi[y] {
+						return
+					}
+					seenPhi[y] = true
+					for _, e := range y.Edges {
+						walk(e, d+1)
+					}
+				case *ssa.BinOp:
+					if y.Op == token.ADD && constIs(y.Y, 1) {
+						incBlocks = append(incBlocks, y.Block())
+						walk(y.X, d+1)
+					} else {
+						okLocal = false
+					}
+				default:
+					okLocal = false
+				}
+			}
+			walk(bo.Y, 0)
+			if !okLocal || len(incBlocks) == 0 {
+				r.bad("ST6", k, p, "null counter is not incremented by exactly one")
+				continue
+			}
+		}
 		var lvl ssa.Value
-		okG := guarded(s.Block(), func(iff *ssa.If, truth bool) bool {
-			c2, ok := iff.Cond.(*ssa.BinOp)
-			if !ok {
-				return false
+		okG := true
+		for _, ib := range incBlocks {
+			if !guarded(ib, func(iff *ssa.If, truth bool) bool {
+				c2, ok := iff.Cond.(*ssa.BinOp)
+				if !ok {
+					return false
+				}
+				var d, m ssa.Value
+				switch {
+				case truth && c2.Op == token.LSS:
+					d, m = c2.X, c2.Y
+				case truth && c2.Op == token.GTR:
+					d, m = c2.Y, c2.X
+				case !truth && c2.Op == token.GEQ:
+					d, m = c2.X, c2.Y
+				case !truth && c2.Op == token.LEQ:
+					d, m = c2.Y, c2.X
+				default:
+					return false
+				}
+				f := fieldOfLoad(m)
+				if f == nil {
+					return false
+				}
+				// d must be an element of the levels slice parameter
+				ld, ok := d.(*ssa.UnOp)
+				if !ok || ld.Op != token.MUL {
+					return false
+				}
+				ia, ok := ld.X.(*ssa.IndexAddr)
+				if !ok {
+					return false
+				}
+				if _, isParam := ia.X.(*ssa.Parameter); !isParam {
+					return false
+				}
+				if ld.Block() != iff.Block() {
+					return false
+				}
+				maxDefFld = f
+				lvl = d
+				return true
+			}, 0) {
+				okG = false
 			}
-			var d, m ssa.Value
-			switch {
-			case truth && c2.Op == token.LSS:
-				d, m = c2.X, c2.Y
-			case truth && c2.Op == token.GTR:
-				d, m = c2.Y, c2.X
-			case !truth && c2.Op == token.GEQ:
-				d, m = c2.X, c2.Y
-			case !truth && c2.Op == token.LEQ:
-				d, m = c2.Y, c2.X
-			default:
-				return false
-			}
-			f := fieldOfLoad(m)
-			if f == nil {
-				return false
-			}
-			// d must be an element of the levels slice parameter
-			ld, ok := d.(*ssa.UnOp)
-			if !ok || ld.Op != token.MUL {
-				return false
-			}
-			ia, ok := ld.X.(*ssa.IndexAddr)
-			if !ok {
-				return false
-			}
-			if _, isParam := ia.X.(*ssa.Parameter); !isParam {
-				return false
-			}
-			if ld.Block() != iff.Block() {
-				return false
-			}
-			maxDefFld = f
-			lvl = d
-			return true
-		}, 0)
+		}
 		if !okG {
 			r.bad("ST6", k, p, "increment of the null counter is not guarded by `level < maximum definition level` on an element of the levels parameter")
 			continue
